@@ -5,6 +5,7 @@ package main
 // SetMin(PolyMin(k)). Values are projected to integers / sign classes; spec/trace/UnionTrace.tla judges.
 
 import (
+	"fmt"
 	"math"
 	"math/rand"
 
@@ -205,6 +206,28 @@ func c16URandom(args []string) error {
 					circ = false
 				}
 				mk(x0, y0, x1, y1, circ)
+			}
+		}
+		if idx%3 == 1 {
+			// one operand whose bounding box is not tight: the library's Cut2D / Difference2D / Intersect2D keep the
+			// box of their first operand although part or all of the material in it is gone (their values are
+			// still no smaller than the distance to that box, so exact pruning is possible)
+			j := r.Intn(len(ops))
+			b := bbs[j]
+			cx, cy := (b[0]+b[2])/2, (b[1]+b[3])/2
+			switch r.Intn(4) {
+			case 0:
+				ops[j] = sdf.Cut2D(ops[j], v2.Vec{X: cx, Y: cy}, v2.Vec{X: r.NormFloat64(), Y: r.NormFloat64()})
+				desc += fmt.Sprintf("cut-through-centre(%d) ", j)
+			case 1:
+				ops[j] = sdf.Cut2D(ops[j], v2.Vec{X: b[2] + 0.5 + 5*r.Float64(), Y: cy}, v2.Vec{X: 0.2 * r.NormFloat64(), Y: []float64{1, -1}[r.Intn(2)]})
+				desc += fmt.Sprintf("cut-beyond-the-box(%d) ", j)
+			case 2:
+				ops[j] = sdf.Difference2D(ops[j], boxAt(b[0]-1, b[1]-1, b[2]+1, b[3]+1))
+				desc += fmt.Sprintf("minus-a-bigger-box(%d) ", j)
+			default:
+				ops[j] = sdf.Intersect2D(ops[j], boxAt(b[2]+3, b[3]+2, b[2]+4, b[3]+5))
+				desc += fmt.Sprintf("intersected-with-a-far-box(%d) ", j)
 			}
 		}
 		k := 0.0
